@@ -530,11 +530,19 @@ def handshakes(ctx: Ctx, n: int) -> None:
             plan.update({"lose": None, "fail_send": ["offer", "accept", "confirm", "confirm", None, None][k], "third_party": None, "resp_late": 0.0, "retry_gap": [6.0, 6.0, 6.0, 0.0, 6.0, 0.0][k],
                          "delay": [G, G, G, 0.5, 0.5, 0.5][k], "repeat": 1, "late_return": None,
                          "give_up": [None, None, None, None, ("supp", 0.2 + 0.5 + 0.5 + 0.25), ("supp", 0.2 + 0.5 + 0.5 + 0.25)][k]})
+        elif trial < 23:   # then: FOUR-frame handshakes (the supplicant adds its 10E0 addenda, the respondent waits for it): undisturbed; the addenda's send
+            # fails for good; the respondent's caller gives up while waiting for the addenda; the addenda is lost
+            k = trial - 18
+            plan.update({"ratify": True, "lose": [None, None, None, "addenda", None][k], "fail_send": [None, "addenda", None, None, "addenda"][k], "third_party": None, "resp_late": 0.0,
+                         "retry_gap": [6.0, 6.0, 0.0, 6.0, 0.0][k], "delay": G, "repeat": [3, 1, 1, 1, 1][k], "late_return": None,
+                         "give_up": [None, None, ("resp", 0.2 + 8 * G), None, None][k]})
         loop = VLoop(lifo=plan["lifo"])
         asyncio.set_event_loop(loop)
         errs = []
         loop.set_exception_handler(lambda lp, c: errs.append(type(c.get("exception")).__name__))
         out = {}
+        from ramses_tx.command import Command as _Cmd  # noqa: PLC0415
+        RATIFY = _Cmd(" I --- 07:222222 63:262142 --:------ 10E0 038 000001C8380F0100F1FF070B07E6030507E15438375246323032350000000000000000000000")
 
         async def main():
             ctxs = {}
@@ -544,7 +552,8 @@ def handshakes(ctx: Ctx, n: int) -> None:
                     me = ctxs[self.id]
                     if me.is_binding:
                         me.sent_cmd(cmd)
-                    phase = ("offer" if cmd.verb == " I" and cmd.dst.id in (cmd.src.id, "63:262142") else
+                    phase = ("addenda" if cmd.code == "10E0" else
+                             "offer" if cmd.verb == " I" and cmd.dst.id in (cmd.src.id, "63:262142") else
                              "accept" if cmd.verb == " W" else "confirm")
                     if plan["fail_send"] == phase:
                         await asyncio.sleep(plan["delay"])
@@ -559,7 +568,7 @@ def handshakes(ctx: Ctx, n: int) -> None:
                     for did, c in ctxs.items():   # routing as dispatcher.process_msg does it
                         if did == self.id:
                             loop.call_soon(deliver, c, msg)            # the sender sees its own echo
-                        elif plan["lose"] != phase and route[(phase, "me" if phase == "offer" or cmd.dst.id == did else "other")]:
+                        elif plan["lose"] != phase and (phase == "addenda" or route[(phase, "me" if phase == "offer" or cmd.dst.id == did else "other")]):
                             for _ in range(plan["repeat"]):
                                 loop.call_soon(deliver, c, msg)
                     if plan.get("late_return") and phase in plan["late_return"]:
@@ -578,7 +587,7 @@ def handshakes(ctx: Ctx, n: int) -> None:
                     await asyncio.sleep(plan["resp_late"] if tag == 1 else (plan["late_2nd"][1] if plan.get("late_2nd", ("", 0))[0] == "resp" else 0))
                     out.setdefault("began", {})[("resp", tag)] = loop.time()
                     try:
-                        return ("ok", await ctxs[r_dev.id].wait_for_binding_request(["1260"]))
+                        return ("ok", await ctxs[r_dev.id].wait_for_binding_request(["1260"], require_ratify=bool(plan.get("ratify"))))
                     except Exception as err:  # noqa: BLE001
                         return ("exc", err)
                     finally:
@@ -590,7 +599,7 @@ def handshakes(ctx: Ctx, n: int) -> None:
                     await asyncio.sleep(0.2 if tag == 1 else (plan["late_2nd"][1] if plan.get("late_2nd", ("", 0))[0] == "supp" else 0.2))
                     out.setdefault("began", {})[("supp", tag)] = loop.time()
                     try:
-                        return ("ok", await ctxs[s_dev.id].initiate_binding_process(["1260"]))
+                        return ("ok", await ctxs[s_dev.id].initiate_binding_process(["1260"], ratify_cmd=RATIFY if plan.get("ratify") else None))
                     except Exception as err:  # noqa: BLE001
                         return ("exc", err)
                     finally:
@@ -623,7 +632,7 @@ def handshakes(ctx: Ctx, n: int) -> None:
             await asyncio.sleep(plan["retry_gap"])   # 6 s: any state timer has expired by now; shorter: a retry at once
             out["binding_after"] = {k: c.is_binding for k, c in ctxs.items()}
             saved = dict(plan)
-            plan.update({"lose": None, "fail_send": None, "repeat": 1, "resp_late": 0.0, "delay": plan.get("delay_2nd", plan["delay"]), "late_return": None})
+            plan.update({"lose": None, "fail_send": None, "repeat": 1, "resp_late": 0.0, "delay": plan.get("delay_2nd", plan["delay"]), "late_return": None, "ratify": False})
             out["second"] = await attempt(2)
             plan.update(saved)
             await asyncio.sleep(6)
